@@ -30,6 +30,22 @@ Keyring::Keyring()
     }
     for (int kind = 0; kind < (int)SK::NKINDS; ++kind)
         for (int i = 0; i < N_KEYS; ++i) registry[Spk((SK)kind, i)] = SpendInfo{(SK)kind, i};
+    for (size_t size : {(size_t)9999, (size_t)10000})
+        for (int i = 0; i < N_KEYS; ++i) registry[BigTrue(size, i)] = SpendInfo{SK::TRUE_BARE, i};
+}
+
+CScript Keyring::BigTrue(size_t size, int key) const
+{
+    key = ((key % N_KEYS) + N_KEYS) % N_KEYS;
+    CScript s;
+    const size_t target = size - 1; // the final OP_1+key
+    // units of <520-byte push> OP_DROP (3 + 520 + 1 bytes), one shorter unit, then OP_NOP padding to the exact size
+    while (target - s.size() >= 524) s << std::vector<unsigned char>(520, (unsigned char)(0x50 + key)) << OP_DROP;
+    if (const size_t rem = target - s.size(); rem >= 80) s << std::vector<unsigned char>(rem - 44, (unsigned char)0x61) << OP_DROP;
+    while (s.size() < target) s << OP_NOP;
+    assert(s.size() == target);
+    s << (opcodetype)(OP_1 + key);
+    return s;
 }
 
 CScript Keyring::Spk(SK kind, int key) const
